@@ -2,6 +2,11 @@ import ChiaModel.Model.Generator
 import ChiaModel.Props.C07
 import ChiaModel.Props.C11
 import ChiaModel.Lemmas.FastPaths
+import ChiaModel.Lemmas.Coinspends
+import ChiaModel.Lemmas.BundleAdditions
+import ChiaModel.Lemmas.BundleLoopRev
+import ChiaModel.Props.C04
+import ChiaModel.Props.C08
 /-
 C09 — theorems that carry this property are listed in bin/props.py; the statements specific to the
 generator-path models that are still open are recorded there under `open`.
@@ -149,5 +154,479 @@ example : ∀ c out, genRun0 = some (c, out) → out.AllBytes := by
   simp [spend0, Sexp.ofList, Sexp.AllBytes, Sexp.nil, isBytes]
 
 end Witness
+
+/-! ## recovered coin spends rebuild the same conditions (`get_coinspends_for_trusted_block`) -/
+
+/-- decomposition of an accepting native run (any flags): the checks before the loop, the loop, the finish -/
+theorem native_ok_full {p : Params} {g : GenInput} {genRun : RunRes} {puz : Nat → RunRes} {L : Nat} {bn : Bundle}
+    (h : native p g genRun puz L = .ok bn) :
+    ¬(simpleGen p.flags ∧ (!g.startsQuote) = true) ∧ generatorNodeOk p.flags g.prog = true ∧
+    ¬(simpleGen p.flags ∧ g.nrefs > 0) ∧ nativeBase p g ≤ L ∧
+    ∃ gc allSpends args retN st left bn0, genRun = some (gc, .pair allSpends args) ∧ gc ≤ L - nativeBase p g ∧
+      allExtract3 allSpends = true ∧
+      nativeLoop { flags := p.flags, mempool := false, pkOk := p.pkOk } puz allSpends 0 { executionCost := gc } {}
+        (spendLimit p.flags) (L - nativeBase p g - gc) = .ok ((retN, st), left) ∧
+      finishBundle { flags := p.flags, mempool := false, pkOk := p.pkOk } p.sigOk retN st = .ok bn0 ∧
+      bn = { bn0 with cost := L - left } := by
+  unfold native at h
+  split at h
+  · cases h
+  rename_i hq
+  simp only at h
+  cases h1 : subtractCost L ((if hasFlag p.flags Gen.flagInternedGenerator = true then internedVbytes g.prog else g.len) * p.costPerByte) with
+  | error e => rw [h1] at h; cases h
+  | ok c1 =>
+    rw [h1] at h; simp only at h
+    split at h
+    · cases h
+    rename_i hnode
+    split at h
+    · cases h
+    rename_i hr
+    cases h2 : runWithLimit genRun c1 with
+    | error e => rw [h2] at h; cases h
+    | ok r =>
+      obtain ⟨gc, gout⟩ := r
+      rw [h2] at h; simp only at h
+      cases h3 : subtractCost c1 gc with
+      | error e => rw [h3] at h; cases h
+      | ok c2 =>
+        rw [h3] at h; simp only at h
+        cases gout with
+        | atom b => simp only [first] at h; cases h
+        | pair allSpends args =>
+          simp only [first] at h
+          split at h
+          · cases h
+          rename_i hex
+          cases h4 : nativeLoop { flags := p.flags, mempool := false, pkOk := p.pkOk } puz allSpends 0 { executionCost := gc } {}
+              (spendLimit p.flags) c2 with
+          | error e => rw [h4] at h; cases h
+          | ok q =>
+            obtain ⟨⟨retN, st⟩, left⟩ := q
+            rw [h4] at h; simp only at h
+            cases h5 : finishBundle { flags := p.flags, mempool := false, pkOk := p.pkOk } p.sigOk retN st with
+            | error e => rw [h5] at h; cases h
+            | ok bn0 =>
+              rw [h5] at h; simp only at h
+              injection h with h
+              obtain ⟨a1, a2⟩ := C07.subtractCost_ok h1
+              obtain ⟨a3, a4⟩ := C07.subtractCost_ok h3
+              obtain ⟨b1, b2⟩ := runWithLimit_ok h2
+              subst a2; subst a4
+              exact ⟨hq, by simpa using hnode, hr, a1, gc, allSpends, args, retN, st, left, bn0, b1, b2, by simpa using hex, h4, h5, h.symm⟩
+
+/-- the converse: the pieces of an accepting native run put together -/
+theorem native_intro {p : Params} {g : GenInput} {genRun : RunRes} {puz : Nat → RunRes} {L : Nat}
+    {gc : Nat} {allSpends args : Sexp} {retN : Bundle} {st : PState} {left : Nat} {bn0 : Bundle}
+    (hq : ¬(simpleGen p.flags ∧ (!g.startsQuote) = true)) (hnode : generatorNodeOk p.flags g.prog = true)
+    (hr : ¬(simpleGen p.flags ∧ g.nrefs > 0)) (hbase : nativeBase p g ≤ L)
+    (hgen : genRun = some (gc, .pair allSpends args)) (hgc : gc ≤ L - nativeBase p g) (hex : allExtract3 allSpends = true)
+    (hloop : nativeLoop { flags := p.flags, mempool := false, pkOk := p.pkOk } puz allSpends 0 { executionCost := gc } {}
+        (spendLimit p.flags) (L - nativeBase p g - gc) = .ok ((retN, st), left))
+    (hfin : finishBundle { flags := p.flags, mempool := false, pkOk := p.pkOk } p.sigOk retN st = .ok bn0) :
+    native p g genRun puz L = .ok { bn0 with cost := L - left } := by
+  unfold nativeBase at hbase hgc hloop
+  unfold native
+  rw [if_neg hq]
+  simp only
+  rw [subtractCost_of_le hbase]
+  simp only
+  rw [if_neg (by simp [hnode]), if_neg hr, hgen, runWithLimit_of_le hgc]
+  simp only
+  rw [subtractCost_of_le hgc]
+  simp only [first]
+  rw [if_neg (by simp [hex]), hloop]
+  simp only
+  rw [hfin]
+
+/-- the quoted generator that lists the coin spends `css` IN ORDER (that is `build_generator` of the reversed
+list, since `build_generator` reverses); `len` is the byte length charged for it -/
+def fwdGen (css : List CoinSpendM) (len : Nat) : GenInput :=
+  { len := len, startsQuote := true, prog := buildGenerator css.reverse, nrefs := 0 }
+
+/-- the generator `build_generator` (`solution_generator`) makes of `css`: it lists the spends in REVERSE order -/
+def revGen (css : List CoinSpendM) : GenInput :=
+  { len := (Sexp.serialize (buildGenerator css)).length, startsQuote := true, prog := buildGenerator css, nrefs := 0 }
+
+/-- **The recovered coin spends rebuild a generator with the same conditions** (order-preserving form).
+If `run_block_generator2` accepts a generator under a limit `L ≤ MAX_BLOCK_COST_CLVM`, the generator's
+output consists of byte strings and every puzzle reveal and solution in it passes the size test `fits`
+(for the code: plain serialisation of at most 2 000 000 bytes — the recorded finding `@reveal-over-2MB` is
+exactly the failure of this hypothesis), then `get_coinspends_for_trusted_block` succeeds with coin spends
+`css` such that
+
+* `css` describes the generator's spend list element by element, in order (`Recovered`: parent, reveal,
+  canonical amount and solution of the i-th coin spend are those of the i-th list element, puzzle hash =
+  tree hash of the reveal), and names the coins of the validated spends in order;
+* the quoted generator listing `css` in order (`fwdGen css len'`, any charged length `len'`), whose run is
+  the value of the quote at cost 20, run with THE SAME puzzle oracle `puz` (its i-th spend has the same
+  puzzle and solution as the i-th accepted spend), is accepted under the limit that leaves the spend loop
+  the same budget, `L' = (L − base − gc) + base' + 20`; the conditions are identical — the same spend records
+  including per-spend costs, fee, locks, signature pairs, amounts, condition cost, signature verdict —
+  except for the two cost fields: `execution_cost` differs by `gc` against the quote's 20 and `cost`
+  additionally by the two size costs. -/
+theorem coinspends_rebuild (fits : Sexp → Bool) (p : Params) (g : GenInput) (genRun : RunRes) (puz : Nat → RunRes)
+    (L : Nat) (b : Bundle)
+    (hL : L ≤ Gen.maxBlockCostClvm) (hab : ∀ c out, genRun = some (c, out) → out.AllBytes)
+    (hfit : ∀ c allSpends args, genRun = some (c, .pair allSpends args) → revealsFit fits allSpends = true)
+    (h : native p g genRun puz L = .ok b) :
+    ∃ css gc allSpends args, getCoinspends fits p g genRun = some css ∧
+      genRun = some (gc, .pair allSpends args) ∧ Recovered allSpends css ∧
+      css.map csKey = b.spends.map spKey ∧
+      ∀ len', ∃ b', native p (fwdGen css len') (some (20, C08.quoted (fwdGen css len').prog)) puz
+              ((L - nativeBase p g - gc) + nativeBase p (fwdGen css len') + 20) = .ok b' ∧
+        b'.spends = b.spends ∧ b' = { b with cost := b'.cost, executionCost := b'.executionCost } ∧
+        b'.cost + nativeBase p g + gc = b.cost + nativeBase p (fwdGen css len') + 20 ∧
+        b'.executionCost + gc = b.executionCost + 20 := by
+  obtain ⟨hq, hnode, hr, hbase, gc, allSpends, args, retN, st, left, bn0, hgen, hgc, hex, hloop, hfin, rfl⟩ := native_ok_full h
+  obtain ⟨news, hn, htr⟩ := nativeLoop_trace _ puz allSpends 0 _ _ _ _ _ _ _ hloop
+  simp only [List.nil_append] at hn
+  have hbytes := hab gc _ hgen
+  simp only [Sexp.AllBytes] at hbytes
+  obtain ⟨css, hcs, hrec, hkeys⟩ := coinspendsLoop_of_trace fits puz news allSpends 0 _ htr hbytes.1 (hfit gc allSpends args hgen)
+  have hget : getCoinspends fits p g genRun = some css := by
+    unfold getCoinspends
+    rw [if_neg hq, if_neg (by simp [hnode]), if_neg hr, hgen]
+    simp only
+    rw [if_neg (by omega)]
+    exact hcs
+  obtain ⟨hv, hsig, rfl⟩ := C08.finishBundle_block_ok (env := { flags := p.flags, mempool := false, pkOk := p.pkOk }) rfl hfin
+  refine ⟨css, gc, allSpends, args, hget, hgen, hrec, by rw [hkeys, ← hn], ?_⟩
+  intro len'
+  -- the spend loop on the rebuilt list, first with the original execution-cost start
+  have hwf := Recovered.wf css allSpends hrec
+  have hloop2 := hloop
+  rw [nativeLoop_recovered _ puz css allSpends hrec] at hloop2
+  have hlenle : css.length ≤ spendLimit p.flags := by
+    by_cases hh : css.length ≤ spendLimit p.flags
+    · exact hh
+    · exact absurd hloop2 (nativeLoop_too_long _ puz (css.map item) 0 _ _ _ _ _ (by rw [List.length_map]; omega))
+  -- then started from the quote's cost 20
+  obtain ⟨a', bB, hloop3, hr1, hr2⟩ := nativeLoop_exec_shift { flags := p.flags, mempool := true, pkOk := p.pkOk } puz gc 20 css 0
+    { executionCost := gc } { executionCost := 20 } {} {} (spendLimit p.flags) (L - nativeBase p g - gc)
+    (fun s hs => (hwf s hs).2) hlenle ⟨rfl, by simp⟩ ⟨rfl, rfl⟩ hloop2
+  change nativeLoop { flags := p.flags, mempool := false, pkOk := p.pkOk } puz _ 0 _ _ _ _ = _ at hloop3
+  have hv' : validOk a' st = true := by
+    rw [validOk_blkRel_two { flags := p.flags, mempool := true, pkOk := p.pkOk } hr1 hr2 st]; exact hv
+  obtain ⟨x, rfl, hx⟩ := blkRel_two hr1 hr2
+  have hfin' := C08.finishBundle_block_of (env := { flags := p.flags, mempool := false, pkOk := p.pkOk }) rfl
+    (sigOk := p.sigOk) hv' hsig
+  have hleft : left ≤ L - nativeBase p g - gc := (shift_nativeLoop _ puz allSpends 0 _ _ _ _ _ _ hloop).1
+  have hgen' : (some (20, C08.quoted (fwdGen css len').prog) : RunRes)
+      = some (20, .pair (Sexp.ofList (css.map item)) Sexp.nil) := by
+    show some (20, C08.quoted (buildGenerator css.reverse)) = _
+    rw [C08.quoted_buildGenerator_reverse]
+  have hnode' : generatorNodeOk p.flags (fwdGen css len').prog = true := by
+    show generatorNodeOk p.flags (buildGenerator css.reverse) = true
+    rw [buildGenerator_eq]; simp [generatorNodeOk]
+  have hnat := native_intro (p := p) (g := fwdGen css len') (puz := puz)
+    (L := (L - nativeBase p g - gc) + nativeBase p (fwdGen css len') + 20)
+    (by simp [fwdGen]) hnode' (by simp [fwdGen]) (by omega) hgen' (by omega) (allExtract3_items css)
+    (by
+      have e : (L - nativeBase p g - gc) + nativeBase p (fwdGen css len') + 20 - nativeBase p (fwdGen css len') - 20
+          = L - nativeBase p g - gc := by omega
+      rw [e]; exact hloop3) hfin'
+  refine ⟨_, hnat, rfl, rfl, ?_, ?_⟩
+  · simp only; omega
+  · simp only; omega
+
+/-- **The generator `build_generator` really builds from the recovered coin spends** (spends in REVERSE
+order) has the same conditions — for every flag set.  Hypotheses of `coinspends_rebuild`, plus a signature
+verdict that does not depend on the order of the (public key, text) pairs (true of BLS aggregate
+verification).  Then `get_coinspends_for_trusted_block` succeeds with `css` as in `coinspends_rebuild`, and
+`run_block_generator2` accepts `build_generator css` (`revGen css`, charged its serialised length, its run =
+the value of the quote at cost 20) with the puzzle runs re-indexed to the generator's order
+(`puz (n − 1 − i)`: the i-th spend of the rebuilt generator is the (n−1−i)-th accepted spend, same puzzle,
+same solution), under the limit that leaves the spend loop the same budget; the validated spend records are
+those of the original block in reverse order (every field), fee, locks, amounts, condition cost and signature
+verdict are equal, the AGG_SIG_UNSAFE pairs agree up to listing order, `execution_cost` differs by `gc`
+against the quote's 20 and `cost` additionally by the two size costs.  (Proof: `coinspends_rebuild`, the
+`BlkRel` bridge to the bundle loop, `bundleLoop_reverse` — the loop-level form of C08's
+`runSpendbundle_reverse`, resting on the C01 refinement and the C06 permutation lemmas — and the bridge back.) -/
+theorem coinspends_rebuild_reversed (fits : Sexp → Bool) (p : Params) (g : GenInput) (genRun : RunRes) (puz : Nat → RunRes)
+    (L : Nat) (b : Bundle)
+    (hL : L ≤ Gen.maxBlockCostClvm) (hab : ∀ c out, genRun = some (c, out) → out.AllBytes)
+    (hfit : ∀ c allSpends args, genRun = some (c, .pair allSpends args) → revealsFit fits allSpends = true)
+    (hsig : ∀ pairs pairs', List.Perm pairs pairs' → p.sigOk pairs = p.sigOk pairs')
+    (h : native p g genRun puz L = .ok b) :
+    ∃ css gc allSpends args, getCoinspends fits p g genRun = some css ∧
+      genRun = some (gc, .pair allSpends args) ∧ Recovered allSpends css ∧
+      css.map csKey = b.spends.map spKey ∧
+      ∃ b', native p (revGen css) (some (20, C08.quoted (revGen css).prog)) (fun i => puz (css.length - 1 - i))
+              ((L - nativeBase p g - gc) + nativeBase p (revGen css) + 20) = .ok b' ∧
+        b'.spends = b.spends.reverse ∧
+        b'.reserveFee = b.reserveFee ∧ b'.heightAbsolute = b.heightAbsolute ∧ b'.secondsAbsolute = b.secondsAbsolute ∧
+        b'.beforeHeightAbsolute = b.beforeHeightAbsolute ∧ b'.beforeSecondsAbsolute = b.beforeSecondsAbsolute ∧
+        List.Perm b'.aggSigUnsafe b.aggSigUnsafe ∧ b'.removalAmount = b.removalAmount ∧ b'.additionAmount = b.additionAmount ∧
+        b'.conditionCost = b.conditionCost ∧ b'.validatedSignature = b.validatedSignature ∧
+        b'.cost + nativeBase p g + gc = b.cost + nativeBase p (revGen css) + 20 ∧
+        b'.executionCost + gc = b.executionCost + 20 := by
+  obtain ⟨css, gc, allSpends, args, hget, hgen, hrec, hkeys, hall⟩ :=
+    coinspends_rebuild fits p g genRun puz L b hL hab hfit h
+  obtain ⟨bF, hF, f1, f2, f3, f4⟩ := hall 0
+  refine ⟨css, gc, allSpends, args, hget, hgen, hrec, hkeys, ?_⟩
+  have hwf0 := Recovered.wf css allSpends hrec
+  have hph : ∀ s ∈ css, s.puzzleHash = Sexp.treeHash s.puzzle := fun s hs => (hwf0 s hs).2
+  have hphr : ∀ s ∈ css.reverse, s.puzzleHash = Sexp.treeHash s.puzzle := fun s hs => hph s (List.mem_reverse.mp hs)
+  -- the accepting run on the order-preserving generator, taken apart
+  obtain ⟨_, _, _, hbF, gc', allSpends', args', retF, stF, leftF, bn0, hg', hgc', _, hloopF, hfinF, hbFeq⟩ := native_ok_full hF
+  have hg'' : (some (20, C08.quoted (fwdGen css 0).prog) : RunRes) = some (20, .pair (Sexp.ofList (css.map item)) Sexp.nil) := by
+    show some (20, C08.quoted (buildGenerator css.reverse)) = _
+    rw [C08.quoted_buildGenerator_reverse]
+  rw [hg''] at hg'
+  injection hg' with hg'; injection hg' with g1 g2; injection g2 with g2 g3
+  subst g1; subst g2; subst g3
+  have em : (L - nativeBase p g - gc) + nativeBase p (fwdGen css 0) + 20 - nativeBase p (fwdGen css 0) - 20
+      = L - nativeBase p g - gc := by omega
+  rw [em] at hloopF
+  have hlenle : css.length ≤ spendLimit p.flags := by
+    by_cases hh : css.length ≤ spendLimit p.flags
+    · exact hh
+    · exact absurd hloopF (nativeLoop_too_long _ puz (css.map item) 0 _ _ _ _ _ (by rw [List.length_map]; omega))
+  have hleft : leftF ≤ L - nativeBase p g - gc := (shift_nativeLoop _ puz _ 0 _ _ _ _ _ _ hloopF).1
+  obtain ⟨hvF, hsigF, hbn0⟩ := C08.finishBundle_block_ok (env := { flags := p.flags, mempool := false, pkOk := p.pkOk }) rfl hfinF
+  -- to the bundle loop on the same list
+  have r1 := nativeLoop_bundleLoop (mpEnv p) puz 20 css 0 { executionCost := 20 } {} {} (spendLimit p.flags)
+    (L - nativeBase p g - gc) hph hlenle ⟨rfl, rfl⟩
+  change LoopRel 20 (nativeLoop { flags := p.flags, mempool := false, pkOk := p.pkOk } puz _ 0 _ _ _ _) _ at r1
+  rw [hloopF] at r1
+  cases hB : bundleLoop (mpEnv p) puz css 0 {} {} (L - nativeBase p g - gc) with
+  | error e => rw [hB] at r1; simp only [LoopRel] at r1
+  | ok q =>
+    obtain ⟨⟨retB, stB⟩, leftB⟩ := q
+    rw [hB] at r1
+    simp only [LoopRel] at r1
+    obtain ⟨e1, e2, hrelF⟩ := r1
+    subst e1; subst e2
+    have hvB : validateConditions (postProcess (mpEnv p) retB stF) stF = .ok () := by
+      unfold validateConditions
+      rw [← validOk_blkRel (mpEnv p) hrelF stF, hvF]; rfl
+    -- reverse the coin spends, re-indexing the puzzle runs
+    obtain ⟨retB', st', hB', hvB', hpk, hsp, s1, s2, s3, s4, s5, s6, s7, s8, s9, s10⟩ :=
+      bundleLoop_reverse p css puz (fun i => puz (css.length - 1 - i)) _ retB stF leftF (fun k _ => rfl) hB hvB
+    -- and back to the native loop, on the list `build_generator css` holds
+    have r2 := nativeLoop_bundleLoop (mpEnv p) (fun i => puz (css.length - 1 - i)) 20 css.reverse 0 { executionCost := 20 } {} {}
+      (spendLimit p.flags) (L - nativeBase p g - gc) hphr (by rw [List.length_reverse]; exact hlenle) ⟨rfl, rfl⟩
+    change LoopRel 20 (nativeLoop { flags := p.flags, mempool := false, pkOk := p.pkOk } _ _ 0 _ _ _ _) _ at r2
+    rw [hB'] at r2
+    cases hN : nativeLoop { flags := p.flags, mempool := false, pkOk := p.pkOk } (fun i => puz (css.length - 1 - i))
+        (Sexp.ofList (css.reverse.map item)) 0 { executionCost := 20 } {} (spendLimit p.flags) (L - nativeBase p g - gc) with
+    | error e => rw [hN] at r2; simp only [LoopRel] at r2
+    | ok q' =>
+      obtain ⟨⟨retR, stR⟩, leftR⟩ := q'
+      rw [hN] at r2
+      simp only [LoopRel] at r2
+      obtain ⟨e1, e2, hrelR⟩ := r2
+      subst e1; subst e2
+      have hvR : validOk retR stR = true := by
+        rw [validOk_blkRel (mpEnv p) hrelR stR]
+        unfold validateConditions at hvB'
+        split at hvB'
+        · assumption
+        · cases hvB'
+      have hsigR : hasFlag p.flags Gen.flagDontValidateSignature = true ∨ p.sigOk stR.pkmPairs = true := by
+        rcases hsigF with hs | hs
+        · exact Or.inl hs
+        · right; rw [← hsig _ _ hpk]; exact hs
+      have hfinR := C08.finishBundle_block_of (env := { flags := p.flags, mempool := false, pkOk := p.pkOk }) rfl
+        (sigOk := p.sigOk) hvR hsigR
+      have hgenR : (some (20, C08.quoted (revGen css).prog) : RunRes)
+          = some (20, .pair (Sexp.ofList (css.reverse.map item)) Sexp.nil) := by
+        show some (20, C08.quoted (buildGenerator css)) = _
+        rw [buildGenerator_eq]
+        simp only [C08.quoted, List.map_reverse]
+      have hnodeR : generatorNodeOk p.flags (revGen css).prog = true := by
+        show generatorNodeOk p.flags (buildGenerator css) = true
+        rw [buildGenerator_eq]; simp [generatorNodeOk]
+      have hnat := native_intro (p := p) (g := revGen css) (puz := fun i => puz (css.length - 1 - i))
+        (L := (L - nativeBase p g - gc) + nativeBase p (revGen css) + 20)
+        (by simp [revGen]) hnodeR (by simp [revGen]) (by omega) hgenR (by omega) (allExtract3_items css.reverse)
+        (by
+          have e : (L - nativeBase p g - gc) + nativeBase p (revGen css) + 20 - nativeBase p (revGen css) - 20
+              = L - nativeBase p g - gc := by omega
+          rw [e]; exact hN) hfinR
+      -- the relations between the three block-side bundles
+      obtain ⟨hF1, hF2⟩ := hrelF
+      obtain ⟨hR1, hR2⟩ := hrelR
+      obtain ⟨pp1, _⟩ := postProcess_blk (mpEnv p) retB stF
+      obtain ⟨pp1', _⟩ := postProcess_blk (mpEnv p) retB' stR
+      have hspends : retR.spends = retF.spends.reverse := by
+        rw [hR1, ← pp1', hsp, List.map_reverse, pp1, ← hF1]
+      have hbFs : bF.spends = retF.spends := by rw [hbFeq, hbn0]
+      have q1 : bF.reserveFee = b.reserveFee := by rw [f2]
+      have q2 : bF.heightAbsolute = b.heightAbsolute := by rw [f2]
+      have q3 : bF.secondsAbsolute = b.secondsAbsolute := by rw [f2]
+      have q4 : bF.beforeHeightAbsolute = b.beforeHeightAbsolute := by rw [f2]
+      have q5 : bF.beforeSecondsAbsolute = b.beforeSecondsAbsolute := by rw [f2]
+      have q6 : bF.aggSigUnsafe = b.aggSigUnsafe := by rw [f2]
+      have q7 : bF.removalAmount = b.removalAmount := by rw [f2]
+      have q8 : bF.additionAmount = b.additionAmount := by rw [f2]
+      have q9 : bF.conditionCost = b.conditionCost := by rw [f2]
+      have q10 : bF.validatedSignature = b.validatedSignature := by rw [f2]
+      have hcostF : bF.cost = (L - nativeBase p g - gc) + nativeBase p (fwdGen css 0) + 20 - leftR := by rw [hbFeq]
+      have hexF : bF.executionCost = retB.executionCost + 20 := by rw [hbFeq, hbn0, hF2]
+      have hexR : retR.executionCost = retB'.executionCost + 20 := by rw [hR2]
+      refine ⟨_, hnat, ?_, ?_, ?_, ?_, ?_, ?_, ?_, ?_, ?_, ?_, ?_, ?_, ?_⟩
+      · show retR.spends = b.spends.reverse
+        rw [hspends, ← hbFs, f1]
+      · show retR.reserveFee = _
+        rw [← q1, hbFeq, hbn0, hR2, hF2]; exact s1
+      · show retR.heightAbsolute = _
+        rw [← q2, hbFeq, hbn0, hR2, hF2]; exact s2
+      · show retR.secondsAbsolute = _
+        rw [← q3, hbFeq, hbn0, hR2, hF2]; exact s3
+      · show retR.beforeHeightAbsolute = _
+        rw [← q4, hbFeq, hbn0, hR2, hF2]; exact s4
+      · show retR.beforeSecondsAbsolute = _
+        rw [← q5, hbFeq, hbn0, hR2, hF2]; exact s5
+      · show List.Perm retR.aggSigUnsafe _
+        rw [← q6, hbFeq, hbn0, hR2, hF2]; exact s10
+      · show retR.removalAmount = _
+        rw [← q7, hbFeq, hbn0, hR2, hF2]; exact s6
+      · show retR.additionAmount = _
+        rw [← q8, hbFeq, hbn0, hR2, hF2]; exact s7
+      · show retR.conditionCost = _
+        rw [← q9, hbFeq, hbn0, hR2, hF2]; exact s8
+      · rw [← q10, hbFeq, hbn0]
+      · show (L - nativeBase p g - gc) + nativeBase p (revGen css) + 20 - leftR + nativeBase p g + gc = _
+        omega
+      · show retR.executionCost + gc = _
+        omega
+
+/-! ## `SpendBundle::additions` on a valid bundle -/
+
+/-- **The convenience additions query lists the created coins of the validated conditions.**
+If `run_spendbundle` accepts the bundle `css` (any flags, any limit) with conditions `b`, the amounts of the
+declared coins are u64 values (the field type), no condition produced by a puzzle has a PAIR in the opcode
+position — the recorded finding `@pair-opcode` is exactly the failure of this hypothesis: `parse_opcode`
+ignores such a condition outside mempool mode, `SpendBundle::additions` returns an error — and the
+validated cost is within the query's own budget of 11 000 000 000, then `SpendBundle::additions` succeeds
+and returns exactly the created coins of `b`: for every spend in order, for every CREATE_COIN in condition
+order, (id of the spent coin, puzzle hash, amount).
+
+The budget needs no separate hypothesis on the puzzle costs: the query charges the puzzle runs and 1 350 000
+per created coin, validation charges at least that much for the same items (the size cost, SPEND_COST and
+the other conditions come on top), so the query's countdown stays above validation's.  The puzzle oracle is
+shared: `puz i` is the run of the i-th reveal on its solution; the code runs it with `ClvmFlags::empty()`
+where validation uses the flags' dialect — the theorem is about bundles for which the two runs coincide. -/
+theorem bundle_additions (p : Params) (css : List CoinSpendM) (puz : Nat → RunRes) (L : Nat) (b : Bundle)
+    (pk : List (Bytes × Bytes))
+    (hamt : ∀ s ∈ css, s.amount < 2^64)
+    (hnp : ∀ k, k < css.length → ∀ c conds, puz k = some (c, conds) → noPairOpcode conds = true)
+    (h : runSpendbundle p css puz L = .ok (b, pk)) (hcost : b.cost ≤ ADDITIONS_BUDGET) :
+    bundleAdditions css puz = some (b.spends.flatMap (fun sp => sp.createCoin.map (fun nc => (sp.coinId, nc.ph, nc.amount)))) := by
+  obtain ⟨_, h', _⟩ := C04.runSpendbundle_limit_exact p css puz L b pk h
+  rw [runSpendbundle_eq] at h'
+  cases hl : bundleCountdown p css puz b.cost with
+  | error e => rw [hl] at h'; cases h'
+  | ok q =>
+    obtain ⟨⟨ret, st⟩, left⟩ := q
+    rw [hl] at h'; simp only at h'
+    cases hb : validateConditions (postProcess (bundleEnv p) ret st) st with
+    | error e => rw [hb] at h'; cases h'
+    | ok u =>
+      rw [hb] at h'; simp only at h'
+      injection h' with h'; injection h' with h1 _
+      unfold bundleCountdown at hl
+      obtain ⟨⟨_, m1⟩, hch, hl⟩ := bind_ok hl
+      obtain ⟨m1', hch1, hch2⟩ := bind_ok hch
+      injection hch2 with hch2; injection hch2 with _ hch2
+      obtain ⟨_, hm1⟩ := charge_ok_iff.mp hch1
+      simp only at hl
+      split at hl
+      · cases hl
+      obtain ⟨news, hn, hres⟩ := bundleAddLoop_of_bundleLoop (bundleEnv p) puz css 0 {} {} m1 ret st left ADDITIONS_BUDGET hl
+        (by omega) hamt (fun k _ hk => hnp k (by omega))
+      have hsp : b.spends = (postProcess (bundleEnv p) ret st).spends := by rw [← h1]
+      show bundleAdditions css puz = some (b.spends.flatMap adds3)
+      unfold bundleAdditions
+      rw [hres, hsp, postProcess_adds3, hn]
+      rfl
+
+/-- the same with the limit in place of the validated cost: a bundle accepted under a limit of at most
+11 000 000 000 (the block maximum, which is also the query's budget) -/
+theorem bundle_additions_of_limit (p : Params) (css : List CoinSpendM) (puz : Nat → RunRes) (L : Nat) (b : Bundle)
+    (pk : List (Bytes × Bytes))
+    (hamt : ∀ s ∈ css, s.amount < 2^64)
+    (hnp : ∀ k, k < css.length → ∀ c conds, puz k = some (c, conds) → noPairOpcode conds = true)
+    (h : runSpendbundle p css puz L = .ok (b, pk)) (hL : L ≤ ADDITIONS_BUDGET) :
+    bundleAdditions css puz = some (b.spends.flatMap (fun sp => sp.createCoin.map (fun nc => (sp.coinId, nc.ph, nc.amount)))) :=
+  bundle_additions p css puz L b pk hamt hnp h
+    (Nat.le_trans (C04.runSpendbundle_limit_exact p css puz L b pk h).1 hL)
+
+/-! ## non-vacuity of the hypotheses of the rebuild and additions theorems -/
+namespace Witness2
+open ChiaModel.C07.Witness
+
+/-- a one-spend generator output: coin (parent 07…07, identity puzzle `1`, amount 2), whose puzzle returns
+one CREATE_COIN of amount 1 -/
+def ph9 : Bytes := List.replicate 32 9
+def spend1 : Sexp := Sexp.ofList [.atom (List.replicate 32 7), .atom [1], .atom [2], Sexp.nil]
+def genRun1 : RunRes := some (10, .pair (Sexp.ofList [spend1]) Sexp.nil)
+def conds1 : Sexp := Sexp.ofList [Sexp.ofList [.atom [51], .atom ph9, .atom [1]]]
+def puz1 : Nat → RunRes := fun _ => some (5, conds1)
+
+/-- the native path accepts it (limit below MAX_BLOCK_COST_CLVM) -/
+example : (native p0 g0 genRun1 puz1 10000000).toBool = true := by decide +kernel
+example : (10000000 : Nat) ≤ Gen.maxBlockCostClvm := by decide
+example : ∀ c out, genRun1 = some (c, out) → out.AllBytes := by
+  intro c out h
+  injection h with h; injection h with _ h
+  subst h
+  simp [spend1, Sexp.ofList, Sexp.AllBytes, Sexp.nil, isBytes]
+/-- every reveal and solution fits the 2 MB limit -/
+example : ∀ c allSpends args, genRun1 = some (c, .pair allSpends args) → revealsFit fits2MB allSpends = true := by
+  intro c allSpends args h
+  injection h with h; injection h with _ h; injection h with h _
+  subst h
+  decide +kernel
+example : ∀ pairs pairs' : List (Bytes × Bytes), List.Perm pairs pairs' → p0.sigOk pairs = p0.sigOk pairs' := fun _ _ _ => rfl
+
+/-- the recovered coin spend is the generator's: parent, amount, puzzle, solution, lengths; puzzle hash = tree hash -/
+example : (getCoinspends fits2MB p0 g0 genRun1).map (fun l => l.map (fun cs => (cs.parent, cs.amount, cs.puzzle, cs.solution)))
+    = some [(List.replicate 32 7, 2, .atom [1], Sexp.nil)] := by decide +kernel
+example : (getCoinspends fits2MB p0 g0 genRun1).map (fun l => l.map (fun cs =>
+    (cs.puzzleLen, cs.solutionLen, cs.puzzleHash == Sexp.treeHash (.atom [1])))) = some [(1, 1, true)] := by decide +kernel
+
+/-- and the generator `build_generator` makes of it is accepted by the native path with the same created coin -/
+example : ((getCoinspends fits2MB p0 g0 genRun1).map (fun css =>
+    match native p0 (revGen css) (some (20, C08.quoted (revGen css).prog)) (fun i => puz1 (css.length - 1 - i)) 10000000 with
+    | .ok b' => b'.spends.map (fun sp => (sp.parentId, sp.coinAmount, sp.createCoin.map (fun nc => (nc.ph, nc.amount))))
+    | .error _ => [])) = some [(List.replicate 32 7, 2, [(ph9, 1)])] := by decide +kernel
+
+/-- the exclusion is real for the model: with a size test that fails (as `fits2MB` does above 2 MB) the
+recovered reveal is the default program `80`, not the generator's puzzle -/
+example : (getCoinspends (fun _ => false) p0 g0 genRun1).map (fun l => l.map (fun cs => cs.puzzle)) = some [Sexp.nil] := by
+  decide +kernel
+
+/-- the same coin spend as a one-spend bundle -/
+def cs1 : CoinSpendM :=
+  { parent := List.replicate 32 7, puzzleHash := Sexp.treeHash (.atom [1]), amount := 2,
+    puzzle := .atom [1], solution := conds1, puzzleLen := 1, solutionLen := 41 }
+
+/-- `run_spendbundle` accepts it under the block maximum; the amounts are u64; no pair in an opcode position -/
+example : (runSpendbundle p0 [cs1] puz1 11000000000).toBool = true := by decide +kernel
+example : (11000000000 : Nat) ≤ ADDITIONS_BUDGET := by decide
+example : ∀ s ∈ [cs1], s.amount < 2^64 := by
+  intro s hs
+  simp only [List.mem_cons, List.mem_nil_iff, or_false] at hs
+  subst hs; decide
+example : ∀ k, k < [cs1].length → ∀ c conds, puz1 k = some (c, conds) → noPairOpcode conds = true := by
+  intro k _ c conds h
+  injection h with h; injection h with _ h
+  subst h; decide
+
+/-- `SpendBundle::additions` lists the created coin (puzzle hash, amount; the parent is the 32-byte coin id) -/
+example : (bundleAdditions [cs1] puz1).map (fun l => l.map (fun x => (x.1.length, x.2.1, x.2.2))) = some [(32, ph9, 1)] := by
+  decide +kernel
+
+/-- the exclusion is real for the model: a condition with a PAIR in the opcode position, `((51))`, is
+ignored by `run_spendbundle` (consensus mode) but makes `SpendBundle::additions` fail -/
+def puzP : Nat → RunRes := fun _ => some (5, Sexp.ofList [.pair (.pair (.atom [51]) Sexp.nil) Sexp.nil])
+example : (runSpendbundle p0 [cs1] puzP 11000000000).toBool = true := by decide +kernel
+example : bundleAdditions [cs1] puzP = none := by decide +kernel
+
+end Witness2
 
 end ChiaModel.C09
